@@ -99,6 +99,7 @@ func defaultSamRec() samRec {
 func samTextMenu() []string {
 	m := enum.AllStrings("a\",@ ", 2)
 	m = append(m, `"a"`, `a"b"`, `"a"b`, `""a`, "\x00", "\x7f", "\x80\xff", "a'b", `\"`, "#", "*")
+	m = append(m, "HD", "a@HD", "x:y:z", "é", "\xc5\x81", "日本", "\xe2\x80\xa8", "\xc2\x85", "\xef\xbb\xbfx", "a\xc2\xa0b")
 	return m
 }
 
